@@ -16,6 +16,16 @@ PF = [1.03, 2.03, 0.53]
 CFG = dict(center_distance_thresholds=[[1.03] * 4, [2.03] * 4], plane_distance_thresholds=[2.03], iou_2d_thresholds=[0.503],
            iou_3d_thresholds=[0.503], max_x_position=100.0625, max_y_position=100.0625)
 TOL = 1e-9
+# evaluation-config overrides of the MANAGER (PerceptionEvaluationManager._filter_objects: range filter of estimates and ground truth before
+# matching, matchable radii, uuid filter of the results); index 0 = the historical wide setting under which only the critical filter binds
+MGR = [
+    {},
+    {"max_x_position": 30.0625, "max_y_position": 30.0625},
+    {"max_x_position": None, "max_y_position": None, "max_distance": 35.03, "min_distance": 3.03},
+    {"max_x_position": 30.0625, "max_y_position": 100.0625, "max_matchable_radii": [2.03] * 4},
+    {"max_x_position": 100.0625, "max_y_position": 30.0625, "target_uuids": ["g0", "g2", "g3", "g5"]},
+]
+WIDE_CRIT = 1       # index in CRIT of the filter that removes nothing: the manager-level filter is then the only one acting
 
 
 def jitter(frames):
@@ -59,7 +69,7 @@ def int_scene(rng, K):
 
 
 def run_scene(case, frame):
-    mgr = MC.make_manager(case["task"], frame, tag="c07" + frame, **CFG)
+    mgr = MC.make_manager(case["task"], frame, tag="c07" + frame, **dict(CFG, **MGR[case.get("mgr", 0)]))
     out = []
     prev = None
     for fr in case["frames"]:
@@ -163,16 +173,17 @@ class RenderingCorr(Corr):
 
     def cases(self, tier, rng):
         out = []
-        n = 32 if tier == "quick" else 400
+        n = 40 if tier == "quick" else 400
         for ci in range(n):
             task = "tracking" if ci % 3 == 2 else "detection"
             K = rng.randint(1, 3) if task == "detection" else rng.randint(2, 4)
-            frames = [MC.gen_frame(rng, i, uuid_prefix="g") for i in range(K)]
+            fp_gt = rng.random() < 0.4       # scenes with FP-labelled ground truth (TN / matched-FP bookkeeping in both renderings)
+            frames = [MC.gen_frame(rng, i, uuid_prefix="g", fp_gt_prob=0.25 if fp_gt else 0.0) for i in range(K)]
             if task == "tracking":  # persistent tracks: same uuids across frames, small motion
                 for i in range(1, K):
                     frames[i]["gts"] = [dict(g, pos=[g["pos"][0] + 0.5, g["pos"][1] + 0.25, g["pos"][2]]) for g in frames[i - 1]["gts"]]
                     frames[i]["ests"] = [dict(e, pos=[e["pos"][0] + 0.5, e["pos"][1] + 0.25, e["pos"][2]]) for e in frames[i - 1]["ests"]]
-                    if rng.random() < 0.4 and len(frames[i]["ests"]) >= 2:  # an identity swap
+                    if rng.random() < 0.6 and len(frames[i]["ests"]) >= 2:  # an identity swap
                         a, b = frames[i]["ests"][0], frames[i]["ests"][1]
                         a["uuid"], b["uuid"] = b["uuid"], a["uuid"]
             if ci % 8 == 5:
@@ -181,11 +192,22 @@ class RenderingCorr(Corr):
             else:
                 MC.assign_confidences(frames, rng, distinct=True)
                 jitter(frames)
+            far = ci % 8 == 3
+            if far:      # map coordinates of the size real maps have (1e4 .. 1e5 m), still on the k/8 lattice
+                for fr in frames:
+                    fr["ego"]["t"] = [89000 + rng.randint(-800, 800) / 8, 42000 + rng.randint(-800, 800) / 8, 40 + rng.randint(-16, 16) / 8]
+            # manager-level filtering that BINDS (range by x/y or by distance, matchable radii, target uuids), mostly under a critical filter
+            # that removes nothing
+            mgr = ci % len(MGR)
+            crit = rng.randrange(len(CRIT))
+            if mgr != 0 and rng.random() < 0.6:
+                crit = WIDE_CRIT
             # how the EGO-frame rendering carries its transforms: the pose (as the loader does), an empty list, or nothing at all
             ego_tf = ["pose", "pose", "empty", "none"][ci % 4]
             # later frames derived from the previous (already evaluated) frame object by deepcopy + in-place update of its transforms
-            out.append({"task": task, "frames": frames, "crit": rng.randrange(len(CRIT)), "pf": rng.randrange(len(PF)), "ego_tf": ego_tf,
-                        "int_positions": ci % 8 == 5, "derived_frames": ego_tf == "pose" and ci % 2 == 1 and K >= 2})
+            out.append({"task": task, "frames": frames, "crit": crit, "pf": rng.randrange(len(PF)), "ego_tf": ego_tf,
+                        "int_positions": ci % 8 == 5, "derived_frames": ego_tf == "pose" and ci % 2 == 1 and K >= 2,
+                        "mgr": mgr, "fp_gt": fp_gt and ci % 8 != 5, "far_map": far and ci % 8 != 5})
         return out
 
     def run_impl(self, case):
@@ -259,7 +281,10 @@ class RenderingCorr(Corr):
 
     def distribution(self, cases, obs):
         d = {"tasks": {}, "frames": 0, "pairs": 0, "tp": 0, "fp": 0, "fn": 0, "filtered_out_gt": 0, "id_switches_seen": 0,
-             "ego_rendering_transforms": {"pose": 0, "empty": 0, "none": 0}, "scenes_with_int_typed_map_positions": 0, "scenes_with_frames_derived_by_deepcopy": 0}
+             "ego_rendering_transforms": {"pose": 0, "empty": 0, "none": 0}, "scenes_with_int_typed_map_positions": 0, "scenes_with_frames_derived_by_deepcopy": 0,
+             "manager_config": {}, "scenes_where_only_the_manager_level_filter_acts": 0, "targeted_gt_removed_by_the_manager_level_filter_alone": 0,
+             "estimates_removed_or_unmatched_under_the_manager_level_filter_alone": 0,
+             "scenes_with_fp_labelled_gt": 0, "tn": 0, "scenes_with_map_coordinates_around_1e5": 0}
         for c, o in zip(cases, obs):
             if not isinstance(o, dict) or "ego" not in o:
                 continue
@@ -267,6 +292,18 @@ class RenderingCorr(Corr):
             d["ego_rendering_transforms"][c.get("ego_tf", "pose")] += 1
             d["scenes_with_int_typed_map_positions"] += bool(c.get("int_positions"))
             d["scenes_with_frames_derived_by_deepcopy"] += bool(c.get("derived_frames"))
+            mk = ",".join(sorted(MGR[c.get("mgr", 0)])) or "wide x/y"
+            d["manager_config"][mk] = d["manager_config"].get(mk, 0) + 1
+            only_mgr = c.get("mgr", 0) != 0 and c["crit"] == WIDE_CRIT
+            d["scenes_where_only_the_manager_level_filter_acts"] += only_mgr
+            d["scenes_with_fp_labelled_gt"] += any(g["label"] == "false_positive" for fr in c["frames"] for g in fr["gts"])
+            d["scenes_with_map_coordinates_around_1e5"] += bool(c.get("far_map"))
+            for fr, f in zip(c["frames"], o["ego"]):
+                d["tn"] += len(f["tn"])
+                if only_mgr:
+                    d["targeted_gt_removed_by_the_manager_level_filter_alone"] += (
+                        sum(1 for g in fr["gts"] if g["label"] in MC.TARGETS + ["false_positive"]) - len(f["critical_gt"]))
+                    d["estimates_removed_or_unmatched_under_the_manager_level_filter_alone"] += len(fr["ests"]) - len(f["results"])
             for fr, f in zip(c["frames"], o["ego"]):
                 d["frames"] += 1
                 d["pairs"] += len(f["pairs"])
@@ -289,14 +326,18 @@ class C07(Prop):
                   "code computes it in the map frame), height intersection and the heading weight are equal in both renderings; IoU is (for the exact intersection evaluator unconditionally, for any other area function given its invariance); the range-filter predicate, the two-stage matcher, the TP decision and AP/APH depend on those numbers only up to "
                   "==, and so do the CLEAR counters, MOTA and MOTP for every history; so all discrete outcomes coincide and all scores are equal. Tie: the same generated scenes (detection and tracking, random ego pose) "
                   "are evaluated by the real manager in the ego frame and in the map frame; the exact geometry of both renderings is evaluated in Coq and "
-                  "compared with what the implementation computed in each frame, and the two executions are compared with each other on every outcome.")
+                  "compared with what the implementation computed in each frame, and the two executions are compared with each other on every outcome "
+                  "(objects surviving the manager-level range / radius / uuid filtering, critical filtering, matching, TP/FP/FN/TN, scores).")
     level_note = ("Exact arithmetic over Q vs binary64: agreement within 1e-7 relative (plane distance is rounded to 1e-10 by the code). Scenes are on the "
                   "k/8 lattice with bounds and thresholds off the lattice and unique dyadic jitter, so no decision is within tolerance of its boundary "
                   "(the property's precondition). IoU invariance is proved for the exact evaluator of the intersection area (C07_iou_invariant_exact_evaluator, from C06's clipper proofs), with which shapely is compared on every run. CLEAR invariance is the theorem "
                   "C07_clear_invariant about the C05 model (identical counters, equal MOTA/MOTP for histories whose per-pair scores are equal as numbers) and is "
                   "additionally observed on the two executions.")
-    rule = ("32 (quick) / 400 (thorough) scenes of 1-4 frames, 0-7 GT per frame, random rational ego pose (13 yaws x lattice translations), 4 critical filters x 3 "
-            "pass/fail thresholds, detection and tracking (persistent tracks with identity swaps); the ego-frame rendering carries the pose / an empty transform list / no transforms in turn; every 8th scene has integer-typed map-frame positions with a fractional ego pose; non-trivial = at least two object results")
+    rule = ("40 (quick) / 400 (thorough) scenes of 1-4 frames, 0-7 GT per frame, random rational ego pose (13 yaws x lattice translations), 4 critical filters x 3 "
+            "pass/fail thresholds, detection and tracking (persistent tracks with identity swaps); the ego-frame rendering carries the pose / an empty transform list / no transforms in turn; every 8th scene has integer-typed map-frame positions with a fractional ego pose; the MANAGER's own filter configuration rotates over wide x/y (only the critical filter binds), binding max_x/max_y, "
+            "binding max/min distance, binding x + max_matchable_radii, binding y + target_uuids -- 60% of those under a critical filter that removes nothing, so that "
+            "PerceptionEvaluationManager._filter_objects alone decides; 40% of the scenes carry FP-labelled ground truth (TN lists compared); every 8th scene has map coordinates around (89000, 42000, 40) m; "
+            "non-trivial = at least two object results")
     assumptions = ["decisions at least 1e-5 away from their boundaries by construction of the generator", "shapely's intersection area agrees with the exact evaluator within 1e-9 (C06's correspondence)"]
     not_proved = [                  "roll/pitch in the ego pose for box-level facts (positions only)"]
 
